@@ -10,7 +10,8 @@ from vlib.common import cbool, clist, cnat, cstr
 ID = "C10"
 PROPERTIES_V = "theories/Properties/C10.v"
 CASE_IMPORTS = ("From GV Require Import Prelude.Base Model.Mode.\nFrom GVgen Require Import Tables_IO.\n"
-                "Require Import String.\nOpen Scope string_scope. Open Scope list_scope.")
+                "Require Import String.\nOpen Scope string_scope. Open Scope list_scope.\n"
+                "Definition IOT : list row := Eval vm_compute in io_rows T_iocalls.")
 ALLOWED_AXIOMS: list = []
 REFUTED: list = []
 PARTIAL = [
@@ -189,7 +190,7 @@ def generate(rng, tier):
         {"op": "close"}, {"op": "open", "mode": "r+"}, _entry_op(("pts", "Entity", "name", "setter")),
         dict(_entry_op(("pts", "ObjectBase", "add_data", "method")), op="fetch_active", mode="r+")]})
     for _ in range(nseq):
-        explicit = rng.chance(25)
+        explicit = rng.chance(35)
         lock = explicit and rng.chance(40)
         ops = gen_seq(rng, explicit)
         if lock:   # the held handle is on the original file only; after save_as the workspace points at an unlocked copy
@@ -429,7 +430,13 @@ def c_calls(calls):
 
 
 def c_sites(calls):
-    return clist("(%s, %s, %s)" % (cstr(c[2]), cnat(c[3]), c_call(c)) for c in calls)
+    seen, out = set(), []
+    for c in calls:                       # every distinct (site, routine, mode) once
+        k = (c[2], c[3], c[0], c[1])
+        if k not in seen:
+            seen.add(k)
+            out.append("(%s, %s, %s)" % (cstr(c[2]), C.cN(c[3]), c_call(c)))
+    return clist(out)
 
 
 def c_err(exc, calls):
@@ -509,7 +516,7 @@ def case_term(case, obs):
     if case["kind"] == "entry":
         r = obs["r"]
         op = op_term(case, r)
-        return ("agree_run (Open R) R false [%s] [%s] [%s] %s && sites_ok T_iocalls %s"
+        return ("agree_run (Open R) R false [%s] [%s] [%s] %s && sites_ok IOT %s"
                 % (op, c_err(r["exc"], r["calls"]), c_handle(r["handle_after"]), c_log(r["entries"]), c_sites(r["calls"])))
     if case["kind"] == "seq":
         ops, outs, hs, log, sites = [], [], [], [], []
@@ -522,7 +529,7 @@ def case_term(case, obs):
             hs.append(c_handle(rec["handle_after"]))
             log += [e for e in rec["entries"]]
             sites += rec["calls"]
-        return ("agree_run %s R %s %s %s %s %s && sites_ok T_iocalls %s"
+        return ("agree_run %s R %s %s %s %s %s && sites_ok IOT %s"
                 % (c_handle(obs["handle0"]), cbool(bool(case.get("lock"))), clist(ops), clist(outs), clist(hs), c_log(log), c_sites(sites)))
     # helpers
     which = case["which"]
@@ -532,10 +539,10 @@ def case_term(case, obs):
         hs = {c[4] for c in obs["calls"]}
         if obs["exc"] is not None or not hs <= {"r"}:
             return "false"
-        return ("agree_run Closed R false [OpenM None; Calls %s; Close] [None; None; None] [Open R; Open R; %s] %s && sites_ok T_iocalls %s"
+        return ("agree_run Closed R false [OpenM None; Calls %s; Close] [None; None; None] [Open R; Open R; %s] %s && sites_ok IOT %s"
                 % (c_calls(obs["calls"]), c_handle(obs["handle_after"]), c_log(obs["entries"]), c_sites(obs["calls"])))
     dm = MODES[obs["ctor_mode"]]
-    return ("agree_run %s %s false [MonitoredCopy %s] [%s] [%s] %s && sites_ok T_iocalls %s"
+    return ("agree_run %s %s false [MonitoredCopy %s] [%s] [%s] %s && sites_ok IOT %s"
             % (c_handle(obs["handle_before"]), dm, c_calls(_body_calls(obs)), c_err(obs["exc"], obs["calls"]),
                c_handle(obs["handle_after"]), c_log(obs["entries"]), c_sites(obs["calls"])))
 
